@@ -43,7 +43,7 @@ func expandC16(_ *testing.T, seed uint64, tier string) []*core.Plan {
 		}
 		return []*core.Plan{p}
 	}
-	policy := r.Intn(5) // 0 immediate, 1 batched, 2 rare, 3 out of order, 4 reconnects in between
+	policy := r.Intn(6) // 0 immediate, 1 batched, 2 rare, 3 out of order, 4 reconnects in between, 5 immediate first then reconnects with batched acknowledgements
 	p.SetKnob("policy", policy)
 	for i := 1; i <= n; i++ {
 		p.Items = append(p.Items, core.Item{K: "pub", A: r.Pick(0, 1, 1, 2, 2), D: i})
@@ -60,7 +60,7 @@ func expandC16(_ *testing.T, seed uint64, tier string) []*core.Plan {
 			if r.Chance(1, 4) {
 				p.Items = append(p.Items, core.Item{K: "ackrev"})
 			}
-		case 4:
+		case 4, 5:
 			if r.Chance(1, 6) {
 				p.Items = append(p.Items, core.Item{K: "ack", A: r.Range(1, win)})
 			}
@@ -86,7 +86,7 @@ func runC16(t *testing.T, p *core.Plan) *core.Result {
 	cfg.Chunk = p.Knob("chunk", 0)
 	cfg.Inflight = p.Knob("window", 10)
 	cfg.QueueSize = p.Knob("queue", 100)
-	if p.Knob("policy", 0) == 4 && cfg.QueueSize < len(p.Items)+10 {
+	if (p.Knob("policy", 0) >= 4 || p.Seed%2 == 0) && cfg.QueueSize < len(p.Items)+10 {
 		// a publish that waits for room while the subscriber drops is discarded
 		// when the queue is still full (capacity, not a window matter)
 		cfg.QueueSize = len(p.Items) + 10
@@ -108,7 +108,7 @@ func runC16(t *testing.T, p *core.Plan) *core.Result {
 		connect := func() *Peer {
 			pr := w.NewPeer("sub")
 			pr.AckMode = 1
-			if policy == 0 && !q0 {
+			if (policy == 0 || (policy == 5 && len(conns) == 0)) && !q0 {
 				pr.AckMode = 0
 			}
 			cc := packet.NewConnect()
@@ -174,6 +174,17 @@ func runC16(t *testing.T, p *core.Plan) *core.Result {
 			}
 		}
 		w.Settle()
+		if !q0 && p.Seed%2 == 0 {
+			// one more resume with the acknowledgements withheld: what the broker
+			// retransmits is in flight all at once ("retransmissions after a
+			// resume included")
+			sub.Drop()
+			w.Settle()
+			sub = connect()
+			sub.AckMode = 1
+			w.Settle()
+			res.Count("final_resumes_with_withheld_acks", 1)
+		}
 		// faults have stopped: the subscriber acknowledges everything promptly
 		if !q0 {
 			for round := 0; round < 3*len(p.Items)+10; round++ {
